@@ -84,6 +84,32 @@ var (
 
 type watcherCfg struct{}
 
+// mutatorExt is a second kind of ConfigWatcher: it looks at the configuration it was handed and then writes into it
+// (extensions do that: they merge their own view, redact, or marshal into the Conf). What one watcher does with its
+// copy must not reach another watcher.
+type mutatorExt struct{}
+
+var (
+	mutSeenMu sync.Mutex
+	mutSeen   []map[string]any
+)
+
+func (mutatorExt) Start(context.Context, component.Host) error { return nil }
+func (mutatorExt) Shutdown(context.Context) error              { return nil }
+func (mutatorExt) NotifyConfig(_ context.Context, conf *confmap.Conf) error {
+	m := conf.ToStringMap()
+	mutSeenMu.Lock()
+	mutSeen = append(mutSeen, m)
+	mutSeenMu.Unlock()
+	_ = conf.Merge(confmap.NewFromStringMap(map[string]any{
+		"exporters": map[string]any{"WRITTEN_BY_ANOTHER_WATCHER": map[string]any{"x": 1}},
+		"service":   map[string]any{"extensions": []any{"WRITTEN_BY_ANOTHER_WATCHER"}, "pipelines": nil},
+	}))
+	return nil
+}
+
+var mutType = component.MustNewType("cfgmut")
+
 var watchType = component.MustNewType("cfgwatch")
 
 func factories() (otelcol.Factories, error) {
@@ -105,7 +131,11 @@ func factories() (otelcol.Factories, error) {
 		func(context.Context, extension.Settings, component.Config) (extension.Extension, error) {
 			return watcherExt{}, nil
 		}, component.StabilityLevelStable)
-	f.Extensions, err = otelcol.MakeFactoryMap[extension.Factory](zpagesextension.NewFactory(), memorylimiterextension.NewFactory(), wf)
+	mf := extension.NewFactory(mutType, func() component.Config { return &watcherCfg{} },
+		func(context.Context, extension.Settings, component.Config) (extension.Extension, error) {
+			return mutatorExt{}, nil
+		}, component.StabilityLevelStable)
+	f.Extensions, err = otelcol.MakeFactoryMap[extension.Factory](zpagesextension.NewFactory(), memorylimiterextension.NewFactory(), wf, mf)
 	return f, err
 }
 
@@ -174,9 +204,9 @@ func baseRoot() map[string]any {
 	return map[string]any{
 		"receivers":  map[string]any{"nop": nil},
 		"exporters":  map[string]any{"nop": nil},
-		"extensions": map[string]any{"cfgwatch": nil},
+		"extensions": map[string]any{"cfgwatch": nil, "cfgmut/a": nil, "cfgmut/b": nil},
 		"service": map[string]any{
-			"extensions": []any{"cfgwatch"},
+			"extensions": []any{"cfgmut/a", "cfgwatch", "cfgmut/b"},
 			"telemetry":  map[string]any{"metrics": map[string]any{"level": "none"}, "logs": map[string]any{"level": "error"}},
 			"pipelines":  map[string]any{"logs": map[string]any{"receivers": []any{"nop"}, "exporters": []any{"nop"}}},
 		},
@@ -279,6 +309,7 @@ func clip(s string, n int) string {
 // running a real collector to obtain the effective configuration handed to a ConfigWatcher
 
 type colResult struct {
+	others  []map[string]any // what the other (writing) watchers were handed during this run
 	eff     map[string]any
 	runErr  error
 	stuck   *driver.Stuck
@@ -288,6 +319,15 @@ type colResult struct {
 func runCollector(c *driver.Ctx, text string) *colResult {
 	res := &colResult{}
 	lastNotified.Store(nil)
+	mutSeenMu.Lock()
+	mutSeen = nil
+	mutSeenMu.Unlock()
+	defer func() {
+		mutSeenMu.Lock()
+		res.others = mutSeen
+		mutSeen = nil
+		mutSeenMu.Unlock()
+	}()
 	res.stuck = c.Guard(90*time.Second, func() int64 { return notifyCount.Load() }, func() {
 		col, err := otelcol.NewCollector(otelcol.CollectorSettings{
 			Factories: factories, BuildInfo: component.NewDefaultBuildInfo(), SkipSettingGRPCLogger: true, DisableGracefulShutdown: true,
